@@ -1583,13 +1583,18 @@ class Scalar(Qube):
 
         # 0-D case
         if not self._shape_ and not expo._shape_:
+            # A NumPy scalar returns nan or inf with a RuntimeWarning where a
+            # Python number raises an exception or returns a complex value
             try:
-                new_values = self._values_ ** expo._values_
+                with warnings.catch_warnings():
+                    warnings.simplefilter('ignore')
+                    new_values = self._values_ ** expo._values_
             except (ValueError, ZeroDivisionError):
                 return self.masked_single(recursive)
 
-            if not isinstance(new_values, numbers.Real):
-                return self.masked_single(recursive)
+            if (not isinstance(new_values, numbers.Real)
+                or np.isnan(new_values) or np.isinf(new_values)):
+                    return self.masked_single(recursive)
 
             new_mask = Qube.or_(self._mask_, expo._mask_)
             new_units = Units.units_power(self._units_, expo._values_)
